@@ -162,10 +162,45 @@ def race_oracle(r):
     for a, n in dels200.items():
         if n > 1:
             bad.append(("delete-twice", "%d DELETEs of the same session answered 200" % n))
+    bad += race_gap_rule(r)
     if any(p != 401 for p in r.get("post") or []):
         bad.append(("ended-cookie-accepted", "a request with an ended session's cookie was answered %s" % r.get("post")))
     if r.get("locks_left"):
         bad.append(("holds-not-released", "%d lock(s) still held after every session ended" % r["locks_left"]))
+    return bad
+
+
+def race_gap_rule(r):
+    """The gap rule on an executed race, from the instants the harness recorded (start = the request is sent, fin = its handler
+    returned; the request's validation happens in between). Sound for every schedule:
+      A  a request sent more than a timeout after EVERY earlier activity of its session had finished must be refused;
+      B  after an accepted request X, a request that is completely handled before (X sent + timeout) must be accepted
+         (accepted requests re-arm the idle timer), unless the session was DELETEd."""
+    bad = []
+    tmo = r.get("tmo") or 0
+    starts, fins, acts, sts = r.get("starts") or {}, r.get("fins") or {}, r.get("acts") or {}, r.get("statuses") or {}
+    if not tmo or not starts:
+        return bad
+    slack = 0 if r.get("clock") == "virtual" else tmo // 5
+    created = r.get("created_at") or []
+    by_s = {}
+    for k, a in acts.items():
+        kind, s = a.split()
+        by_s.setdefault(int(s), []).append((k, kind))
+    for s, ks in by_s.items():
+        if any(kind == "del" and sts.get(k) == 200 for k, kind in ks):
+            continue
+        reqs = [k for k, kind in ks if kind == "req" and k in starts and k in fins]
+        c_at = created[s] if s < len(created) else 0
+        for y in reqs:
+            touches = [c_at] + [fins[x] for x in reqs if x != y and sts.get(x) == 200 and starts[x] <= starts[y]]
+            if sts.get(y) == 200 and starts[y] > max(touches) + tmo + slack:
+                bad.append(("request-accepted-after-full-timeout", "request goroutine %s on session %d was sent at %d ns, more than the timeout (%d ns) after the session's last activity ended (%d ns), and was answered 200"
+                            % (y, s, starts[y], tmo, max(touches))))
+            for x in reqs:
+                if x != y and sts.get(x) == 200 and sts.get(y) == 401 and fins[x] <= starts[y] and fins[y] < starts[x] + tmo - slack:
+                    bad.append(("accepted-request-did-not-keep-session-valid", "request %s on session %d was answered 200 (sent at %d ns) but request %s, completely handled by %d ns — less than the timeout (%d ns) later — was answered 401 without a DELETE"
+                                % (x, s, starts[x], y, fins[y], tmo)))
     return bad
 
 
